@@ -163,7 +163,7 @@ theorem fold_spread_sub {fs : List Field} {n : Str} {d : Option Val} (sfs : List
       rw [parseEntry_nested hn hf kvs hk cur _ (simpleName_keyChar ha),
         splitDot_simple _ (simpleName_no_dot ha), hinit,
         findSet_model_leaf _ sfs p0.1.1 p0.1.2.1 p0.1.2.2 inner (leafTree p0.2) hfl
-          (hin p0 (by simp)) (by simp only [hlv, hav])]
+          (hin p0 (by simp)) (by simp only [leafFn, hlv, hav])]
       rfl
     cases nd with
     | nil =>
